@@ -181,23 +181,28 @@ class TxnType(DataflowTransactionContext):  # pylint: disable=too-few-public-met
                         APPLICATION_TRANSACTION_TYPES
                     ) - set([TealerTransactionType.ApplCreation])
 
-            if is_value_matches_key(key, arg1, TypeEnum) and value_3 is not None:
-                compared_type = transaction_type_to_tealer_type(value_3)
-                true_values, false_values = self._typeenum_values(compared_type)
-            elif is_value_matches_key(key, arg2, TypeEnum) and value_2 is not None:
-                compared_type = transaction_type_to_tealer_type(value_2)
-                true_values, false_values = self._typeenum_values(compared_type)
+            try:
+                if is_value_matches_key(key, arg1, TypeEnum) and value_3 is not None:
+                    compared_type = transaction_type_to_tealer_type(value_3)
+                    true_values, false_values = self._typeenum_values(compared_type)
+                elif is_value_matches_key(key, arg2, TypeEnum) and value_2 is not None:
+                    compared_type = transaction_type_to_tealer_type(value_2)
+                    true_values, false_values = self._typeenum_values(compared_type)
 
-            if is_value_matches_key(key, arg1, OnCompletion) and value_3 is not None:
-                compared_on_completion = oncompletion_to_tealer_type(value_3)
-                true_values, false_values = set([compared_on_completion]), set(
-                    APPLICATION_TRANSACTION_TYPES
-                ) - set([compared_on_completion])
-            elif is_value_matches_key(key, arg2, OnCompletion) and value_2 is not None:
-                compared_on_completion = oncompletion_to_tealer_type(value_2)
-                true_values, false_values = set([compared_on_completion]), set(
-                    APPLICATION_TRANSACTION_TYPES
-                ) - set([compared_on_completion])
+                if is_value_matches_key(key, arg1, OnCompletion) and value_3 is not None:
+                    compared_on_completion = oncompletion_to_tealer_type(value_3)
+                    true_values, false_values = set([compared_on_completion]), set(
+                        APPLICATION_TRANSACTION_TYPES
+                    ) - set([compared_on_completion])
+                elif is_value_matches_key(key, arg2, OnCompletion) and value_2 is not None:
+                    compared_on_completion = oncompletion_to_tealer_type(value_2)
+                    true_values, false_values = set([compared_on_completion]), set(
+                        APPLICATION_TRANSACTION_TYPES
+                    ) - set([compared_on_completion])
+            except KeyError:
+                # the compared value is not a transaction type / OnCompletion constant (e.g `int 0`, `int 7`).
+                # The comparison gives no information.
+                return set(U), set(U)
 
             if true_values is not None and false_values is not None:
                 if isinstance(ins1, Eq):
